@@ -145,11 +145,39 @@ func (w *CrashWorld) restart(action string, seed int64, duringOp bool) {
 	} else {
 		r.logf("restart #%d after kill", w.restarts)
 	}
-	// what was in flight is in doubt
-	if duringOp && w.assume != nil {
-		w.alt = w.Model.Clone()
-		w.assume(w.alt)
+	// what was in flight is in doubt; so is every operation that failed after
+	// an injected disk fault since the last restart (its frames may sit in the
+	// WAL and be replayed by this recovery)
+	ling := w.lingering
+	w.lingering = nil
+	if len(ling) > 4 {
+		ling = ling[len(ling)-4:]
+	}
+	inflight := w.assume
+	if !duringOp {
+		inflight = nil
+	}
+	for mask := 0; mask < 1<<len(ling); mask++ {
+		m := w.Model.Clone()
+		for i, f := range ling {
+			if mask&(1<<i) != 0 {
+				f(m)
+			}
+		}
+		if mask != 0 {
+			w.variants = append(w.variants, m)
+		}
+		if inflight != nil {
+			m2 := m.Clone()
+			inflight(m2)
+			w.variants = append(w.variants, m2)
+		}
+	}
+	if inflight != nil {
 		r.probe("crash.op_in_doubt")
+	}
+	if len(ling) > 0 {
+		r.probe("crash.with_lingering_failed_ops")
 	}
 	w.assume = nil
 	w.loc = "sqlite/restart"
@@ -254,7 +282,7 @@ func RunCrashProgram(p *Program) *Result {
 	defer os.RemoveAll(base)
 	cfg := p.Store
 	cfg.Backend = "sqlite"
-	sw := &StoreWorld{Cfg: cfg, Res: &Result{}, names: newNamer()}
+	sw := &StoreWorld{Cfg: cfg, Res: &Result{}, names: newNamer(), keepLingering: true}
 	sw.Clock = NewClock(Epoch.Add(time.Duration(p.Offset)))
 	sw.Clock.Install()
 	sw.Model = NewModel(cfg)
